@@ -390,6 +390,9 @@ func checkC02(c *Ctx) {
 	c.R.Explanation, c.R.NotDecided, c.R.Assumptions = expl+" The stream-integrity rules of C09 (R-field-writer, R-shared-writer, R-frame-atomic, R-payload) are evaluated as well.", nd, as
 	c01FreshBuffer(c) // a message handed to a caller must not share its buffer with the next one read
 	c02NoSubstringOnJSON(c)
+	c02SiblingSource(c)
+	// descriptors and results are the registered ones on every server kind: each server constructor wires every registry
+	c12OneRegistry(c, discoverRegistries(c, CollectAccesses(c)).owners)
 	c02ErrorEnvelope(c)
 	c02ResultUntouched(c)
 
